@@ -299,6 +299,65 @@ def m1_cmdseq(ctx: Any, prog: Program) -> None:
             ctx.check('C20.M1', not rf, mod, a, f'slot {i}: a constant is packed where Command.parse uses `{p}` for {sorted(rf)}', func='write', text=f'cmdseq slot {i} {p} constant')
             continue
         ctx.check('C20.M1', bool(rf & wf_), mod, a, f'slot {i}: Command.parse parameter `{p}` feeds field(s) {sorted(rf)} but write() packs `{ast.unparse(a)[:50]}` (field(s) {sorted(wf_)})', func='write', text=f'cmdseq slot {i} {p}')
+    # the optional file check: Command.parse yields None exactly when the flag is clear and the (possibly empty) text otherwise, so the flag the
+    # writer packs has to say "is not None" - a truthiness test turns the representable value '' into None
+    opt_slots = []
+    for n in ast.walk(cp):
+        if isinstance(n, ast.If) and isinstance(n.test, ast.Name) and n.test.id in params:
+            none_arm = [s_ for s_ in n.orelse if isinstance(s_, ast.Assign) and isinstance(s_.value, ast.Constant) and s_.value.value is None]
+            if none_arm and isinstance(none_arm[0].targets[0], ast.Name):
+                flds_ = [f_ for f_, a_ in arg_field if isinstance(a_, ast.Name) and a_.id == none_arm[0].targets[0].id]
+                if flds_:
+                    opt_slots.append((params.index(n.test.id), flds_[0]))
+    ctx.shape('C20.M1', len(opt_slots) == 1, mod, cp, 'Command.parse has one flag-controlled optional field (`if ensure_check: ... else: ensure = None`)', func='Command.parse', text='cmdseq optional field flag')
+    for si_, fld_ in opt_slots:
+        a = args[si_]
+        def derives(e_: ast.AST, depth: int = 0) -> bool:
+            """e_ is cmd.<fld_> or a local holding exactly it"""
+            if isinstance(e_, ast.Attribute) and dotted(e_) == f'cmd.{fld_}':
+                return True
+            if isinstance(e_, ast.Name) and depth < 3:
+                d_ = [x for x in ast.walk(wf) if isinstance(x, ast.Assign) and len(x.targets) == 1 and isinstance(x.targets[0], ast.Name) and x.targets[0].id == e_.id]
+                return len(d_) == 1 and derives(d_[0].value, depth + 1)
+            return False
+        def mentions(e_: ast.AST, depth: int = 0) -> bool:
+            for x in ast.walk(e_):
+                if isinstance(x, ast.Attribute) and dotted(x) == f'cmd.{fld_}':
+                    return True
+                if isinstance(x, ast.Name) and depth < 3:
+                    for d_ in ast.walk(wf):
+                        if isinstance(d_, ast.Assign) and len(d_.targets) == 1 and isinstance(d_.targets[0], ast.Name) and d_.targets[0].id == x.id and mentions(d_.value, depth + 1):
+                            return True
+            return False
+        def classify(e_: ast.AST) -> str:
+            while isinstance(e_, ast.Call) and isinstance(e_.func, ast.Name) and e_.func.id in ('int', 'bool') and len(e_.args) == 1 and isinstance(e_.args[0], ast.Compare):
+                e_ = e_.args[0]
+            if isinstance(e_, ast.Compare) and len(e_.ops) == 1 and isinstance(e_.ops[0], (ast.Is, ast.IsNot)) and isinstance(e_.comparators[0], ast.Constant) and e_.comparators[0].value is None and derives(e_.left):
+                return 'identity'
+            if mentions(e_):
+                return 'truthiness'
+            return 'unknown'
+        flag_expr: Optional[ast.AST] = a
+        if isinstance(a, ast.Name):
+            defs_ = [x for x in ast.walk(wf) if isinstance(x, ast.Assign) and len(x.targets) == 1 and isinstance(x.targets[0], ast.Name) and x.targets[0].id == a.id]
+            if defs_ and all(isinstance(x.value, ast.Constant) for x in defs_):
+                ifs_ = {id(mod.parents.get(x)): mod.parents.get(x) for x in defs_}
+                par_ = list(ifs_.values())
+                flag_expr = par_[0].test if len(par_) == 1 and isinstance(par_[0], ast.If) else None
+                if flag_expr is not None and isinstance(flag_expr, ast.Compare) and isinstance(flag_expr.ops[0], (ast.Is, ast.IsNot)):
+                    # the arm that sets the flag must be the "present" arm
+                    present_arm = par_[0].body if isinstance(flag_expr.ops[0], ast.IsNot) else par_[0].orelse
+                    polarity_ok = all(bool(x.value.value) == any(x is y for y in present_arm) for x in defs_)
+                    ctx.check('C20.M1', polarity_ok, mod, a, f'slot {si_}: the presence flag of Command.{fld_} is set in the arm where the field is None', func='write', text='cmdseq optional field flag polarity')
+            elif len(defs_) == 1:
+                flag_expr = defs_[0].value
+            else:
+                flag_expr = None
+        kind_ = classify(flag_expr) if flag_expr is not None else 'unknown'
+        ctx.shape('C20.M1', kind_ != 'unknown', mod, a, f'slot {si_}: how the presence flag `{ast.unparse(a)[:40]}` of Command.{fld_} is computed was not recognised', func='write', text='cmdseq optional field flag')
+        if kind_ != 'unknown':
+            ctx.check('C20.M1', kind_ == 'identity', mod, a, f'slot {si_}: the presence flag of Command.{fld_} is `{ast.unparse(flag_expr)[:60]}`, a truthiness test: an empty (but present) {fld_} is written with the flag clear '
+                      'and read back as None', func='write', text='cmdseq optional field flag')
     # fixed-width strings raise
     ps = mod.func('pad_string')
     raising = [n for n in ast.walk(ps) if isinstance(n, ast.If) and any(isinstance(s, ast.Raise) for s in n.body)]
@@ -427,19 +486,137 @@ def m1_choreo(ctx: Any, prog: Program) -> None:
             continue
         src = ast.unparse(mod.cls(sub))
         ctx.shape('C20.M1', f'EventType.{ename}' in src and 'init=False' in src, mod, mod.cls(sub), f'{sub} is fixed to EventType.{ename} (the reader dispatches on the type, the writer on the class)', func=sub, text=f'{sub} type fixed')
-    # quantisation factors agree
-    for cls in ('Tag', 'AbsoluteTag'):
-        ms = mod.methods('Tag')
-        ok = 'value / cls._FACTOR' in ast.unparse(ms['parse_binary']) and 'round(tag.value * cls._FACTOR)' in ast.unparse(ms['export_binary']) and 'min(cls._MAX, max(0,' in ast.unparse(ms['export_binary'])
-        ctx.shape('C20.M1', ok, mod, ms['export_binary'], f'{cls}: value scaled by _FACTOR both ways and clamped to _MAX', func='Tag.export_binary', text=f'{cls} scale factor')
-    fa = {k: fold.fold(mod.class_assign('AbsoluteTag', k), {}) for k in ('_FACTOR', '_MAX')}
-    fb = {k: fold.fold(mod.class_assign('Tag', k), {}) for k in ('_FACTOR', '_MAX')}
-    ctx.check('C20.M1', fa['_MAX'] == 65535 and fb['_MAX'] == 255 and expand(fold.fold(mod.class_assign('AbsoluteTag', '_FMT'), {}).fmt) == 'hH' and expand(fold.fold(mod.class_assign('Tag', '_FMT'), {}).fmt) == 'hB', mod,
-              mod.cls('AbsoluteTag'), '_MAX matches the width of the value slot of _FMT for both tag classes', func='AbsoluteTag', text='tag value slot width = _MAX')
-    for cls, expr_r, expr_w in (('Curve', 'value / 255.0', 'round(sample.value * 255.0)'), ('FlexAnimTrack', 'value / 255.0', 'round(track.value * 255.0)')):
-        ms = mod.methods(cls)
-        ok = expr_r in ast.unparse(ms['parse_binary']) and expr_w in ast.unparse(ms['export_binary'])
-        ctx.shape('C20.M1', ok, mod, ms['export_binary'], f'{cls}: sample values scaled by 255 both ways', func=f'{cls}.export_binary', text=f'{cls} scale factor')
+    # quantisation: the writer stores round(value * F) clamped to the capacity of the slot it is packed into, the reader divides by the same F.
+    # Decided structurally: locals and single-expression helper functions are inlined, constants folded per concrete class.
+    CAPACITY = {'B': 255, 'H': 65535}
+
+    def q_const(e: ast.AST, clsname: str, depth: int = 0) -> Any:
+        if isinstance(e, ast.Constant) and isinstance(e.value, (int, float)):
+            return e.value
+        if isinstance(e, ast.Attribute) and isinstance(e.value, ast.Name) and e.value.id in ('cls', 'self') and depth < 3:
+            for c_ in (clsname, 'Tag' if clsname == 'AbsoluteTag' else clsname):
+                try:
+                    return q_const(mod.class_assign(c_, e.attr), clsname, depth + 1)
+                except AnalysisError:
+                    continue
+        if isinstance(e, ast.Name) and depth < 3:
+            try:
+                return q_const(mod.module_assign(e.id), clsname, depth + 1) if hasattr(mod, 'module_assign') else None
+            except AnalysisError:
+                return None
+        return None
+
+    def q_inline(e: ast.AST, fn: ast.AST, depth: int = 0) -> ast.AST:
+        """value expression with single-assignment locals and one-expression module helpers substituted"""
+        if depth > 5:
+            return e
+        if isinstance(e, ast.Name):
+            defs_ = [a_ for a_ in ast.walk(fn) if isinstance(a_, ast.Assign) and len(a_.targets) == 1 and isinstance(a_.targets[0], ast.Name) and a_.targets[0].id == e.id
+                     and a_.lineno <= getattr(e, 'lineno', 10 ** 9)]
+            if defs_:
+                return q_inline(sorted(defs_, key=lambda a_: a_.lineno)[-1].value, fn, depth + 1)
+            return e
+        if isinstance(e, ast.Call) and isinstance(e.func, ast.Name) and mod.has_func(e.func.id):
+            hf = mod.func(e.func.id)
+            body_ = [st for st in hf.body if not (isinstance(st, ast.Expr) and isinstance(st.value, ast.Constant))]
+            if len(body_) == 1 and isinstance(body_[0], ast.Return) and body_[0].value is not None:
+                params_ = [a_.arg for a_ in hf.args.args]
+                bind = dict(zip(params_, e.args))
+                for k_ in e.keywords:
+                    bind[k_.arg] = k_.value
+                for prm_, d_ in zip(params_[len(params_) - len(hf.args.defaults):], hf.args.defaults):
+                    bind.setdefault(prm_, d_)
+
+                class _Sub(ast.NodeTransformer):
+                    def visit_Name(self, node: ast.Name) -> ast.AST:
+                        return bind.get(node.id, node) if isinstance(node.ctx, ast.Load) else node
+                import copy as _copy
+                return q_inline(_Sub().visit(_copy.deepcopy(body_[0].value)), fn, depth + 1)
+        return e
+
+    def q_match(e: ast.AST) -> Optional[Tuple[ast.AST, ast.AST, ast.AST]]:
+        """(upper bound, lower bound, scaled product) of min(MAX, max(LO, round(a * b))) in either nesting order"""
+        def call_of(x: ast.AST, name: str) -> bool:
+            return isinstance(x, ast.Call) and isinstance(x.func, ast.Name) and x.func.id == name and len(x.args) == 2 and not x.keywords
+        def rounded(x: ast.AST) -> Optional[ast.AST]:
+            if isinstance(x, ast.Call) and isinstance(x.func, ast.Name) and x.func.id == 'int' and len(x.args) == 1:
+                x = x.args[0]
+            if isinstance(x, ast.Call) and isinstance(x.func, ast.Name) and x.func.id == 'round' and len(x.args) == 1 and isinstance(x.args[0], ast.BinOp) and isinstance(x.args[0].op, ast.Mult):
+                return x.args[0]
+            return None
+        for outer, inner in (('min', 'max'), ('max', 'min')):
+            if call_of(e, outer):
+                for i_ in (0, 1):
+                    if call_of(e.args[i_], inner):
+                        bound_o = e.args[1 - i_]
+                        for j_ in (0, 1):
+                            r_ = rounded(e.args[i_].args[j_])
+                            if r_ is not None:
+                                bound_i = e.args[i_].args[1 - j_]
+                                return (bound_o, bound_i, r_) if outer == 'min' else (bound_i, bound_o, r_)
+        return None
+
+    def q_site(clsname: str, concrete: str, pack_call: ast.Call, fmt: str, slot: int, fn: ast.AST, label: str) -> Optional[float]:
+        val = q_inline(pack_call.args[slot], fn)
+        m_ = q_match(val)
+        code = expand(fmt)[slot] if slot < len(expand(fmt)) else '?'
+        ctx.shape('C20.M1', m_ is not None and code in CAPACITY, mod, pack_call, f'{label}: quantised slot `{ast.unparse(pack_call.args[slot])[:50]}` is min(MAX, max(0, round(value * F))) packed as {code!r} '
+                  f'(found `{ast.unparse(val)[:70]}`)', func=f'{clsname}.export_binary', text=f'{label} scale factor')
+        if m_ is None or code not in CAPACITY:
+            return None
+        hi, lo, prod = m_
+        hi_v, lo_v = q_const(hi, concrete), q_const(lo, concrete)
+        fac = [v for v in (q_const(prod.left, concrete), q_const(prod.right, concrete)) if v is not None]
+        ctx.shape('C20.M1', hi_v is not None and lo_v is not None and len(fac) == 1, mod, pack_call, f'{label}: clamp bounds and factor fold to constants', func=f'{clsname}.export_binary', text=f'{label} clamp constants')
+        if hi_v is None or lo_v is None or len(fac) != 1:
+            return None
+        ctx.check('C20.M1', hi_v == CAPACITY[code] and lo_v == 0, mod, pack_call, f'{label}: the value is clamped to [{lo_v}, {hi_v}] but is stored in a {code!r} slot holding 0..{CAPACITY[code]}: '
+                  + ('every representable value above the clamp reads back as the clamp' if hi_v < CAPACITY[code] else 'values past the slot width are not clamped'),
+                  func=f'{clsname}.export_binary', text=f'{label} clamp = slot capacity')
+        return float(fac[0])
+
+    def q_reader(clsname: str, concrete: str) -> Set[float]:
+        out_: Set[float] = set()
+        for d_ in ast.walk(mod.methods(clsname)['parse_binary']):
+            if isinstance(d_, ast.BinOp) and isinstance(d_.op, ast.Div) and isinstance(d_.left, ast.Name):
+                v_ = q_const(d_.right, concrete)
+                if v_ is not None:
+                    out_.add(float(v_))
+        return out_
+
+    n_quant = 0
+    for clsname, concretes in (('Tag', ('Tag', 'AbsoluteTag')), ('Curve', ('Curve',)), ('FlexAnimTrack', ('FlexAnimTrack',))):
+        ex_ = mod.methods(clsname)['export_binary']
+        for concrete in concretes:
+            wfac: Set[float] = set()
+            for c_ in ast.walk(ex_):
+                if not (isinstance(c_, ast.Call) and isinstance(c_.func, ast.Attribute) and c_.func.attr == 'pack'):
+                    continue
+                if dotted(c_.func) == 'struct.pack' and c_.args and isinstance(c_.args[0], ast.Constant):
+                    fmt_, args_off = c_.args[0].value, 1
+                elif isinstance(c_.func.value, ast.Attribute) and isinstance(c_.func.value.value, ast.Name) and c_.func.value.value.id in ('cls', 'self'):
+                    try:
+                        fmt_ = fold.fold(mod.class_assign(concrete, c_.func.value.attr), {}).fmt
+                    except AnalysisError:
+                        fmt_ = fold.fold(mod.class_assign(clsname, c_.func.value.attr), {}).fmt
+                    args_off = 0
+                else:
+                    continue
+                codes_ = expand(fmt_)
+                for si_, code_ in enumerate(codes_):
+                    if code_ in CAPACITY and si_ + args_off < len(c_.args):
+                        inl_ = q_inline(c_.args[si_ + args_off], ex_)
+                        if not any(isinstance(x, ast.Call) and isinstance(x.func, ast.Name) and x.func.id == 'round' for x in ast.walk(inl_)):
+                            continue      # counts, flags, indexes: not a quantised float
+                        shim = ast.Call(func=c_.func, args=c_.args[args_off:], keywords=[])
+                        ast.copy_location(shim, c_)
+                        f_ = q_site(clsname, concrete, shim, fmt_, si_, ex_, f'{concrete}')
+                        n_quant += 1
+                        if f_ is not None:
+                            wfac.add(f_)
+            rfac = q_reader(clsname, concrete)
+            ctx.check('C20.M1', wfac == rfac and len(rfac) == 1, mod, ex_, f'{concrete}: the writer multiplies by {sorted(wfac)} and the reader divides by {sorted(rfac)}', func=f'{clsname}.export_binary', text=f'{concrete} factor both ways')
+    ctx.shape('C20.M1', n_quant >= 5, mod, mod.cls('Tag'), f'quantised slots found: {n_quant} (Tag, AbsoluteTag, Curve, 2x FlexAnimTrack confirmed by hand)', func='Tag', text='quantised slot census')
     ct = mod.methods('CurveType')
     ok = ast.unparse(ct['parse_binary'].body[-1]) == 'return cls(Interpolation(value >> 8 & 255), Interpolation(value & 255))' and ast.unparse(ct['export_binary'].body[-1]) == 'return self.first.value << 8 | self.second.value'
     ctx.shape('C20.M1', ok, mod, ct['export_binary'], 'CurveType: first interpolation in the high byte, second in the low byte, both ways', func='CurveType.export_binary', text='CurveType byte positions')
@@ -1002,6 +1179,12 @@ def m5_tables(ctx: Any, prog: Program) -> None:
 
 
 MUTANTS: List[Dict[str, Any]] = [
+    {'id': 'cmdseq_ensure_flag_truthiness', 'file': 'cmdseq.py', 'find': "            if cmd.ensure_file is not None:", 'replace': "            if cmd.ensure_file:", 'expect': 'C20.M1'},
+    {'id': 'ok_cmdseq_ensure_flag_inverted_arms', 'file': 'cmdseq.py', 'find': "            if cmd.ensure_file is not None:\n                ensure_file = pad_string(cmd.ensure_file, 260)\n                has_ensure_file = 1\n            else:\n                ensure_file = bytes(260)\n                has_ensure_file = 0\n", 'replace': "            if cmd.ensure_file is None:\n                ensure_file = bytes(260)\n                has_ensure_file = 0\n            else:\n                ensure_file = pad_string(cmd.ensure_file, 260)\n                has_ensure_file = 1\n", 'expect': None},
+    {'id': 'abs_tag_max_byte', 'file': 'choreo.py', 'find': "    _MAX: ClassVar[int] = 65535", 'replace': "    _MAX: ClassVar[int] = 255", 'expect': 'C20.M1'},
+    {'id': 'curve_writer_factor_256', 'file': 'choreo.py', 'find': "            value = min(255, max(0, round(sample.value * 255.0)))", 'replace': "            value = min(255, max(0, round(sample.value * 256.0)))", 'expect': 'C20.M1'},
+    {'id': 'tag_clamp_hardcoded_byte', 'file': 'choreo.py', 'find': "            value = min(cls._MAX, max(0, round(tag.value * cls._FACTOR)))", 'replace': "            value = min(255, max(0, round(tag.value * cls._FACTOR)))", 'expect': 'C20.M1'},
+    {'id': 'ok_quantise_helper', 'file': 'choreo.py', 'find': "def _update_checksum(", 'replace': "def _quantise(value: float, factor: float = 255.0, limit: int = 255) -> int:\n    \"\"\"Fixed point.\"\"\"\n    return min(limit, max(0, round(value * factor)))\n\n\ndef _update_checksum(", 'extra': [{'file': 'choreo.py', 'find': "            value = min(cls._MAX, max(0, round(tag.value * cls._FACTOR)))\n            file.write(cls._FMT.pack(add_to_pool(tag.name), value))", 'replace': "            file.write(cls._FMT.pack(add_to_pool(tag.name), _quantise(tag.value, cls._FACTOR, cls._MAX)))"}, {'file': 'choreo.py', 'find': "            value = min(255, max(0, round(sample.value * 255.0)))\n            file.write(self.BIN_FMT.pack(sample.time, value))", 'replace': "            file.write(self.BIN_FMT.pack(sample.time, _quantise(sample.value)))"}], 'expect': None},
     {'id': 'smd_nodes_in_dict_order', 'file': 'smd.py', 'find': "                if not bone.parent or bone.parent in bone_indexes:\n", 'replace': "                if True:\n", 'expect': 'C20.M2'},
     {'id': 'sndscript_stacks_without_version', 'file': 'sndscript.py', 'find': "        if self.force_v2 or self.stack_start or self.stack_stop or self.stack_update:\n            file.write(\n                '\\t' 'soundentry_version 2\\n'\n", 'replace': "        if self.force_v2:\n            file.write('\\tsoundentry_version 2\\n')\n        if self.force_v2 or self.stack_start or self.stack_stop or self.stack_update:\n            file.write(\n", 'expect': 'C20.M2'},
     {'id': 'cmdseq_strip_find_unchecked', 'file': 'cmdseq.py', 'find': "    if b'\\0' in data:\n        return data[:data.index(b'\\0')].decode('ascii')\n    else:\n        return data.decode('ascii')", 'replace': "    end = data.find(b'\\0')\n    return data[:end].decode('ascii')", 'expect': 'C20.M1'},
